@@ -147,6 +147,30 @@ fn state_key_of(ty: &str) -> &'static str {
     }
 }
 
+/// when set, `render` writes every string (keys and values) with JSON escapes: the first character as \uXXXX and '/' as
+/// "\/" - the same JSON value as another text (events relayed by other implementations arrive in such spellings)
+static ESCAPED: std::sync::atomic::AtomicBool = std::sync::atomic::AtomicBool::new(false);
+
+fn json_string(s: &str) -> String {
+    let plain = serde_json::to_string(s).unwrap();
+    if !ESCAPED.load(std::sync::atomic::Ordering::Relaxed) {
+        return plain;
+    }
+    let mut out = String::from("\"");
+    for (i, c) in s.chars().enumerate() {
+        if (i == 0 || c == '.') && (c as u32) < 0x10000 {
+            out.push_str(&format!("\\u{:04x}", c as u32));
+        } else if c == '/' {
+            out.push_str("\\/");
+        } else {
+            let one = serde_json::to_string(&c.to_string()).unwrap();
+            out.push_str(&one[1..one.len() - 1]);
+        }
+    }
+    out.push('"');
+    out
+}
+
 /// JSON text of a value with object keys in sorted or reversed order at every depth
 fn render(v: &Value, reversed: bool, out: &mut String) {
     match v {
@@ -161,7 +185,7 @@ fn render(v: &Value, reversed: bool, out: &mut String) {
                 if i > 0 {
                     out.push(',');
                 }
-                out.push_str(&serde_json::to_string(k).unwrap());
+                out.push_str(&json_string(k));
                 out.push(':');
                 render(&m[*k], reversed, out);
             }
@@ -177,6 +201,7 @@ fn render(v: &Value, reversed: bool, out: &mut String) {
             }
             out.push(']');
         }
+        Value::String(x) => out.push_str(&json_string(x)),
         x => out.push_str(&serde_json::to_string(x).unwrap()),
     }
 }
@@ -258,7 +283,8 @@ fn check_event(acc: &mut Acc, s: &Schema, label: &str, content: &Value, redacted
     render(&ev, reversed, &mut text);
     acc.n += 1;
     acc.nontrivial += 1;
-    let describe = |why: &str| json!({"type": s.ty, "shape": label, "redacted": redacted, "keys_reversed": reversed, "event": text, "why": why});
+    let escaped = ESCAPED.load(std::sync::atomic::Ordering::Relaxed);
+    let describe = |why: &str| json!({"type": s.ty, "shape": label, "redacted": redacted, "keys_reversed": reversed, "strings_escaped": escaped, "event": text, "why": why});
     let r = std::panic::catch_unwind(|| -> Vec<(u8, String)> {
         let mut bad: Vec<(u8, String)> = vec![];
         let is_unknown = s.ty.starts_with("org.example");
@@ -464,23 +490,27 @@ fn check_event(acc: &mut Acc, s: &Schema, label: &str, content: &Value, redacted
 
 pub fn run(_tier: &str) -> Report {
     let mut acc = Acc { n: 0, nontrivial: 0, f_parse: vec![], f_fix: vec![], f_raw: vec![], f_panic: vec![], samples: vec![] };
-    for s in schemas() {
-        for (label, content) in contents(&s) {
-            for reversed in [false, true] {
-                check_event(&mut acc, &s, &label, &content, false, reversed);
-                if matches!(s.kind, Kind::State | Kind::Message) {
-                    check_event(&mut acc, &s, &label, &content, true, reversed);
+    for escaped in [false, true] {
+        ESCAPED.store(escaped, std::sync::atomic::Ordering::Relaxed);
+        for s in schemas() {
+            for (label, content) in contents(&s) {
+                for reversed in [false, true] {
+                    check_event(&mut acc, &s, &label, &content, false, reversed);
+                    if matches!(s.kind, Kind::State | Kind::Message) {
+                        check_event(&mut acc, &s, &label, &content, true, reversed);
+                    }
                 }
             }
         }
     }
+    ESCAPED.store(false, std::sync::atomic::Ordering::Relaxed);
     *super::EXTRA.lock().unwrap() = Some((
         acc.nontrivial,
-        "cases are (event type, content shape, redacted?, key order) tuples, each generated once (distinct); every case is a complete event JSON, so all are non-trivial".to_owned(),
+        "cases are (event type, content shape, redacted?, key order, string spelling) tuples, each generated once (distinct); every case is a complete event JSON, so all are non-trivial".to_owned(),
         acc.samples.clone(),
     ));
     Report {
-        bound: format!("{} events: 41 event type shapes (36 specified + 5 unknown, of every kind) x content shapes (required only, each optional field, all optional fields, an unknown field) x original/redacted x sorted/reversed key order, each also in sync / state / stripped format where applicable", acc.n),
+        bound: format!("{} events: 41 event type shapes (36 specified + 5 unknown, of every kind) x content shapes (required only, each optional field, all optional fields, an unknown field) x original/redacted x sorted/reversed key order x plain / JSON-escaped spelling of every string, each also in sync / state / stripped format where applicable", acc.n),
         cases: acc.n,
         obligations: vec![
             ("typed_deserialization_dispatches_by_type_and_exposes_the_json_fields", acc.n, acc.f_parse),
